@@ -163,7 +163,19 @@ def _check(prop, tier, jobs, verbose, seed, t0, evid_path):
     known = []
     seen_names = set()
     # prefer small bounded witnesses
-    refuted.sort(key=lambda ro: (ro[0]["mode"] == "unbounded", sum((ro[0]["shape"] or {}).values()) if ro[0]["shape"] else 0))
+    def _shape_size(sh):
+        tot = 0
+        for v in (sh or {}).values():
+            if isinstance(v, (list, tuple)):
+                p = 1
+                for x in v:
+                    p *= max(int(x), 1)
+                tot += p
+            elif isinstance(v, int):
+                tot += v
+        return tot
+
+    refuted.sort(key=lambda ro: (ro[0]["mode"] == "unbounded", _shape_size(ro[0]["shape"])))
     replay_dir = os.path.join(os.environ.get("PYVC_OUT_DIR", VERIF), "replays", prop)
     for r, ob in refuted:
         if ob["name"] in seen_names:
